@@ -17,7 +17,7 @@ META = {
         "ProxiedRegion.register_proxy_cap returns the URL already registered when the name's newest entry is proxy-only and "
         "registers nothing, otherwise registers exactly one new proxy-only entry and returns its URL - hence (lemma) registering a "
         "proxy-only capability twice yields the same URL; ProxiedRegion.register_cap makes the new (type, url) the newest entry "
-        "for the name and rebuilds the reverse index. B (bounded): prepend-on-add multimap, reverse URL index, longest-prefix "
+        "for the name and rebuilds the reverse index. ProxiedRegion.update_caps: a granted (name, url) pair enters the table iff the url is an http string, as a NORMAL cap under its own name, with the reverse index rebuilt right after; _recalc_caps drops the old index once and indexes every entry under its own URL with its own type and name. B (bounded): prepend-on-add multimap, reverse URL index, longest-prefix "
         "resolution, one-shot caps, attribution to region and session, seed request/response rewriting - operation sequences against a "
         "reference multimap through the real SessionManager and MITMProxyEventManager."),
     "trusted_base": [
@@ -115,6 +115,8 @@ def register(reg):
                           z3.Implies(z3.Not(had), z3.And(HAS(sb, name), URL(sb, name) == r, TYP(sb, name) == P)))
         return [("claim", [post(s0, s1, r1), post(s1, s2, r2)], r1 == r2, ["captype"])]
     reg.lemmas.append(Lemma("proxy_cap_idempotent", PID, twice, "registering a proxy-only capability twice yields the same URL"))
+    from contracts import c16b_contracts
+    c16b_contracts.register_p2(reg, PID)
 
 
 BOUNDED = [http_native.bounded_caps]
